@@ -150,6 +150,59 @@ def scan(ctx):
     return viol, st
 
 
+def kernel_crosscheck(ctx, limit=80):
+    """a sample of the Z cases (`hnf`: lll_hnf with the case's [p, pinv] flags; `lll`: lll with / without the
+    transformation) evaluated by vm_compute inside coqc on Model/Lll.v must give exactly the matrices the EXTRACTED
+    runner printed"""
+    import os
+    out = os.path.join(ctx.work, "corr")
+    try:
+        cases = open(os.path.join(out, "cases.txt")).read().splitlines()
+        model = open(os.path.join(out, "model.txt")).read().splitlines()
+    except OSError:
+        return {}, []
+
+    def mat(m, n, ents):
+        if len(ents) != m * n:
+            raise ValueError
+        rows = [ents[i * n:(i + 1) * n] for i in range(m)]
+        return "[%s]" % "; ".join("[" + "; ".join("(%d)%%Z" % int(x) for x in r) + "]" for r in rows)
+
+    def omat(m, n, sx):
+        sx = sx.strip()
+        return "None" if sx == "-" else "(Some %s)" % mat(m, n, sx.split())
+
+    ex = []
+    for alg, lim in (("hnf", limit // 2), ("lll", limit - limit // 2)):
+        sel = [(c.split(), mm) for c, mm in zip(cases, model)
+               if c.startswith(alg + " Z ") and 7 <= len(c.split()) <= 6 + 20 and max(len(x) for x in c.split()[6:]) <= 30
+               and "." not in mm.split("#")[0].split()]
+        step = max(1, len(sel) // lim)
+        for t, mm in sel[::step][:lim]:
+            try:
+                m, n = int(t[2]), int(t[3])
+                a = mat(m, n, t[6:])
+                b = lambda ch: "true" if ch == "1" else "false"
+                if alg == "hnf":
+                    lhs = "lll_hnf Z_lll %s (%s, %s) fuel" % (a, b(t[4][0]), b(t[4][1]))
+                else:
+                    lhs = "lll Z_lll %s %s fuel" % (a, b(t[4][0]))
+                if mm.strip() == "P":
+                    rhs = "None"
+                else:
+                    f = mm.split("#")[0].split("|")
+                    if alg == "hnf":
+                        rhs = "Some (%s, %s, %s)" % (mat(m, n, f[0].split()), omat(m, m, f[1]), omat(m, m, f[2]))
+                    else:
+                        rhs = "Some (%s, %s)" % (mat(m, n, f[0].split()), omat(m, m, f[1]))
+            except (ValueError, IndexError):
+                continue
+            ex.append((lhs, rhs))
+    pre = ["From Coq Require Import List ZArith NArith Arith.", "Require Import Yui.Model.Lll.", "Import ListNotations.",
+           "Definition fuel : nat := N.to_nat 300000."]
+    return C.kernel_examples(ctx, pre, ex, timeout=900)
+
+
 def run(ctx):
     ctx.equal = equal
     obl = C.coq_obligations(ctx.pid, ["Extract/ExtractC10.vo"])
@@ -159,6 +212,12 @@ def run(ctx):
     corr = C.correspondence(ctx, "c10", nontrivial)
     viol, stats = scan(ctx)
     extra["c10_stats"] = stats
+    if corr.get("ok"):
+        info, probs = kernel_crosscheck(ctx)
+        extra.update(info)
+        if probs:
+            obl["problems"] = obl.get("problems", []) + probs
+            obl["ok"] = False
     explain = ("category 'other': unimodularity (every reachable state, both algorithms, all flags) and the HNF shape are "
                "Coq theorems for all inputs, but termination is not proved and the LLL-reducedness of B is a theorem only "
                "with respect to the maintained Gram data; the link to the true Gram-Schmidt data is validated by verified "
